@@ -32,8 +32,11 @@ open LLBuild.Generated.DirTreeRecipe
 abbrev Name := Bytes
 abbrev Pattern := Bytes
 
-/-- the fields of `struct stat` copied into `FileInfo` by `FileInfo::getInfoForPath` (the checksum stays zero in
-the default file-system mode) -/
+/-- `FileInfo` as `getFileSystem().getFileInfo(path)` reports it: the fields of `struct stat` copied by
+`FileInfo::getInfoForPath` and the 32-byte checksum.  In the `default` file-system mode the checksum stays zero;
+`device-agnostic` zeroes device and inode; `checksum-only` zeroes device, inode and mtime and fills the checksum (MD5
+of the content followed by 16 zero bytes for a non-directory, `01 00 … 00` for a directory).  The theorems quantify
+over ALL records, so they cover the three modes alike. -/
 structure Info where
   device : UInt64
   inode : UInt64
@@ -41,10 +44,11 @@ structure Info where
   size : UInt64
   mtimeSec : UInt64
   mtimeNsec : UInt64
+  checksum : Vector UInt8 32 := Vector.replicate 32 0
   deriving DecidableEq, Repr
 
 def Info.toFileInfo (i : Info) : Codec.FileInfo :=
-  ⟨i.device, i.inode, i.mode, i.size, i.mtimeSec, i.mtimeNsec, List.replicate 32 0⟩
+  ⟨i.device, i.inode, i.mode, i.size, i.mtimeSec, i.mtimeNsec, i.checksum.toList⟩
 
 /-- A tree beneath (and including) the input directory.  `link target`: what `stat` reports THROUGH a symbolic link
 that does not resolve to a directory (`none` = dangling); a link that resolves to a directory is seen by every task
@@ -123,7 +127,11 @@ end
 /-- the per-directory listing the (Filtered)DirectoryContents key delivers for `dir i cs` -/
 def listing (c : Cfg) (cs : List (Name × Tree)) : List Name := (sortBy c.before (obsList c cs)).map (·.1)
 
-def Info.zero : Info := ⟨0, 0, 0, 0, 0, 0⟩
+/-- the record without a checksum (`default` / `device-agnostic` file-system modes) -/
+def Info.plain (device inode mode size mtimeSec mtimeNsec : UInt64) : Info :=
+  { device, inode, mode, size, mtimeSec, mtimeNsec }
+
+def Info.zero : Info := Info.plain 0 0 0 0 0 0
 
 /-- `FilteredDirectoryContents` carries no stat record: with filters the ROOT directory's own record is not part of
 what the signature sees (every other directory's record is seen as its parent's child value). -/
